@@ -116,3 +116,34 @@ def present_mask(b):
         else:
             m[sl] = True
     return m
+
+
+class CallTimeout(Exception):
+    pass
+
+
+def call_timed(seconds, f, *a, **k):
+    """like call(), with a wall-clock guard (SIGALRM): ('timeout', None) if the call does not return in time"""
+    import signal
+
+    def handler(signum, frame):
+        raise CallTimeout()
+    old = signal.signal(signal.SIGALRM, handler)
+    signal.setitimer(signal.ITIMER_REAL, seconds)
+    try:
+        try:
+            return 'ok', f(*a, **k)
+        finally:
+            signal.setitimer(signal.ITIMER_REAL, 0)
+    except CallTimeout:
+        return 'timeout', None
+    except YastnError as e:
+        return 'yerr', str(e)
+    except MemoryError:
+        raise
+    except Exception as e:
+        tb = traceback.format_exc().strip().splitlines()
+        where = [l.strip() for l in tb if 'yastn/' in l][-1:] or ['']
+        return 'exc', f"{type(e).__name__}: {e} @ {where[0]}"
+    finally:
+        signal.signal(signal.SIGALRM, old)
